@@ -3,5 +3,1579 @@
 -/
 import ClockBound.Model.SeqlockSys
 namespace ClockBound.SL
+open ClockBound
+
+/-! ### basics: `Loc`, list indexing -/
+
+theorem loc_beq_iff (x y : Loc) : (x == y) = true ↔ x = y := by
+  cases x <;> cases y <;> simp [BEq.beq, instBEqLoc.beq]
+
+instance : LawfulBEq Loc where
+  eq_of_beq h := (loc_beq_iff _ _).1 h
+  rfl := (loc_beq_iff _ _).2 rfl
+
+theorem getElem?_snoc_cases {log : Log} {x m : Msg} {i : Nat} (h : (log ++ [x])[i]? = some m) :
+    (i < log.length ∧ log[i]? = some m) ∨ (i = log.length ∧ m = x) := by
+  by_cases hi : i < log.length
+  · left; rw [List.getElem?_append_left hi] at h; exact ⟨hi, h⟩
+  · right
+    have hi' : log.length ≤ i := Nat.le_of_not_lt hi
+    rw [List.getElem?_append_right hi'] at h
+    have : i - log.length = 0 := by
+      by_cases h0 : i - log.length = 0
+      · exact h0
+      · have : [x][i - log.length]? = none := by
+          apply List.getElem?_eq_none; simp; omega
+        rw [this] at h; cases h
+    rw [this] at h
+    simp at h
+    exact ⟨by omega, h.symm⟩
+
+theorem getElem?_append_some {log l : Log} {i : Nat} {m : Msg} (h : log[i]? = some m) :
+    (log ++ l)[i]? = some m := by
+  have hi : i < log.length := by
+    by_cases hi : i < log.length
+    · exact hi
+    · rw [List.getElem?_eq_none (Nat.le_of_not_lt hi)] at h; cases h
+  rw [List.getElem?_append_left hi]; exact h
+
+theorem getElem?_snoc_length (log : Log) (x : Msg) : (log ++ [x])[log.length]? = some x := by
+  simp
+
+theorem lt_length_of_getElem? {log : Log} {i : Nat} {m : Msg} (h : log[i]? = some m) : i < log.length := by
+  by_cases hi : i < log.length
+  · exact hi
+  · rw [List.getElem?_eq_none (Nat.le_of_not_lt hi)] at h; cases h
+
+/-! ### `lastBefore` -/
+
+/-- the message at index `j` (if any) is at location `x` -/
+def isLoc (log : Log) (x : Loc) (j : Nat) : Bool := (log[j]?.map (·.loc == x)).getD false
+
+theorem isLoc_iff {log : Log} {x : Loc} {j : Nat} :
+    isLoc log x j = true ↔ ∃ m, log[j]? = some m ∧ m.loc = x := by
+  unfold isLoc
+  cases h : log[j]? <;> simp
+
+theorem isLoc_append {log l : Log} {x : Loc} {j : Nat} (h : j < log.length) :
+    isLoc (log ++ l) x j = isLoc log x j := by
+  unfold isLoc; rw [List.getElem?_append_left h]
+
+theorem isLoc_of_ge {log : Log} {x : Loc} {j : Nat} (h : log.length ≤ j) : isLoc log x j = false := by
+  unfold isLoc; rw [List.getElem?_eq_none h]; rfl
+
+theorem lastBefore_zero (log : Log) (x : Loc) : lastBefore log x 0 = none := by
+  simp [lastBefore]
+
+theorem lastBefore_succ (log : Log) (x : Loc) (n : Nat) :
+    lastBefore log x (n + 1) = if isLoc log x n then some n else lastBefore log x n := by
+  by_cases hn : n < log.length
+  · have h1 : min (n + 1) log.length = n + 1 := by omega
+    have h2 : min n log.length = n := by omega
+    unfold lastBefore
+    simp only [h1, h2, List.range_succ, List.filter_append]
+    by_cases hl : isLoc log x n = true
+    · have : (log[n]?.map (·.loc == x)).getD false = true := hl
+      simp [this, hl]
+    · have hl' : isLoc log x n = false := by simpa using hl
+      have : (log[n]?.map (·.loc == x)).getD false = false := hl'
+      simp [this, hl']
+  · have h1 : min (n + 1) log.length = log.length := by omega
+    have h2 : min n log.length = log.length := by omega
+    rw [isLoc_of_ge (Nat.le_of_not_lt hn)]
+    unfold lastBefore
+    simp only [h1, h2]
+    simp
+
+/-- `j` is the largest index `< n` holding a message at `x` -/
+def LastAt (log : Log) (x : Loc) (n j : Nat) : Prop :=
+  j < n ∧ (∃ m, log[j]? = some m ∧ m.loc = x) ∧
+    ∀ k m, j < k → k < n → log[k]? = some m → m.loc ≠ x
+
+theorem lastBefore_eq_none_iff {log : Log} {x : Loc} {n : Nat} :
+    lastBefore log x n = none ↔ ∀ k m, k < n → log[k]? = some m → m.loc ≠ x := by
+  induction n with
+  | zero => simp [lastBefore_zero]
+  | succ n ih =>
+    rw [lastBefore_succ]
+    by_cases hl : isLoc log x n = true
+    · simp only [hl, if_true]
+      obtain ⟨m, hm, hx⟩ := isLoc_iff.1 hl
+      constructor
+      · intro h; cases h
+      · intro h; exact absurd hx (h n m (Nat.lt_succ_self n) hm)
+    · simp only [hl]
+      rw [if_neg (by simp), ih]
+      constructor
+      · intro h k m hk hm
+        by_cases hkn : k = n
+        · subst hkn; intro hx; exact hl (isLoc_iff.2 ⟨m, hm, hx⟩)
+        · exact h k m (by omega) hm
+      · intro h k m hk hm; exact h k m (by omega) hm
+
+theorem lastBefore_eq_some_iff {log : Log} {x : Loc} {n j : Nat} :
+    lastBefore log x n = some j ↔ LastAt log x n j := by
+  induction n with
+  | zero => simp [lastBefore_zero, LastAt]
+  | succ n ih =>
+    rw [lastBefore_succ]
+    by_cases hl : isLoc log x n = true
+    · simp only [hl, if_true]
+      obtain ⟨m, hm, hx⟩ := isLoc_iff.1 hl
+      constructor
+      · intro h
+        have : n = j := by injection h
+        subst this
+        exact ⟨Nat.lt_succ_self _, ⟨m, hm, hx⟩, fun k m' h1 h2 => by omega⟩
+      · rintro ⟨h1, _, h3⟩
+        by_cases hjn : j = n
+        · rw [hjn]
+        · exact absurd hx (h3 n m (by omega) (Nat.lt_succ_self n) hm)
+    · rw [if_neg hl, ih]
+      constructor
+      · rintro ⟨h1, h2, h3⟩
+        refine ⟨by omega, h2, fun k m hk1 hk2 hm => ?_⟩
+        by_cases hkn : k = n
+        · subst hkn; intro hx; exact hl (isLoc_iff.2 ⟨m, hm, hx⟩)
+        · exact h3 k m hk1 (by omega) hm
+      · rintro ⟨h1, h2, h3⟩
+        have hjn : j ≠ n := by
+          rintro rfl; exact hl (isLoc_iff.2 h2)
+        exact ⟨by omega, h2, fun k m hk1 hk2 hm => h3 k m hk1 (by omega) hm⟩
+
+theorem lastBefore_append {log l : Log} {x : Loc} {n : Nat} (h : n ≤ log.length) :
+    lastBefore (log ++ l) x n = lastBefore log x n := by
+  induction n with
+  | zero => simp [lastBefore_zero]
+  | succ n ih =>
+    rw [lastBefore_succ, lastBefore_succ, isLoc_append (by omega), ih (by omega)]
+
+theorem lastBefore_exists {log : Log} {x : Loc} {n k : Nat} {m : Msg}
+    (hk : k < n) (hm : log[k]? = some m) (hx : m.loc = x) :
+    ∃ j, lastBefore log x n = some j ∧ k ≤ j := by
+  cases h : lastBefore log x n with
+  | none => exact absurd hx (lastBefore_eq_none_iff.1 h k m hk hm)
+  | some j =>
+    refine ⟨j, rfl, ?_⟩
+    obtain ⟨_, _, h3⟩ := lastBefore_eq_some_iff.1 h
+    by_cases hjk : k ≤ j
+    · exact hjk
+    · exact absurd hx (h3 k m (by omega) hk hm)
+
+theorem LastAt_le {log : Log} {x : Loc} {n j k : Nat} {m : Msg} (h : LastAt log x n j)
+    (hk : k < n) (hm : log[k]? = some m) (hx : m.loc = x) : k ≤ j := by
+  by_cases hjk : k ≤ j
+  · exact hjk
+  · exact absurd hx (h.2.2 k m (by omega) hk hm)
+
+/-! ### counting even generation messages -/
+
+def isEG (log : Log) (k : Nat) : Bool := (log[k]?.map isEvenGen).getD false
+
+theorem isEG_iff {log : Log} {k : Nat} :
+    isEG log k = true ↔ ∃ m, log[k]? = some m ∧ m.loc = .gen ∧ m.val % 2 = 0 := by
+  unfold isEG isEvenGen
+  cases h : log[k]? <;> simp
+
+theorem isEG_append {log l : Log} {k : Nat} (h : k < log.length) : isEG (log ++ l) k = isEG log k := by
+  unfold isEG; rw [List.getElem?_append_left h]
+
+theorem eGB_def (log : Log) (i j : Nat) :
+    evenGenBetween log i j = ((List.range (j + 1)).filter (fun k => decide (i < k) && isEG log k)).length := rfl
+
+theorem eGB_succ (log : Log) (i j : Nat) :
+    evenGenBetween log i (j + 1) =
+      evenGenBetween log i j + (if i < j + 1 ∧ isEG log (j + 1) = true then 1 else 0) := by
+  rw [eGB_def, eGB_def, List.range_succ, List.filter_append, List.length_append]
+  congr 1
+  by_cases h : i < j + 1 ∧ isEG log (j + 1) = true
+  · simp [h.1, h.2]
+  · rw [if_neg h]
+    have : (decide (i < j + 1) && isEG log (j + 1)) = false := by
+      by_cases h1 : i < j + 1
+      · have : isEG log (j + 1) = false := by
+          cases h2 : isEG log (j + 1) with
+          | false => rfl
+          | true => exact absurd ⟨h1, h2⟩ h
+        simp [this]
+      · simp [h1]
+    simp [this]
+
+theorem eGB_of_le (log : Log) {i j : Nat} (h : j ≤ i) : evenGenBetween log i j = 0 := by
+  rw [eGB_def]
+  simp only [List.length_eq_zero_iff, List.filter_eq_nil_iff, List.mem_range]
+  intro k hk
+  have : ¬ i < k := by omega
+  simp [this]
+
+theorem eGB_add (log : Log) {i j k : Nat} (hij : i ≤ j) (hjk : j ≤ k) :
+    evenGenBetween log i k = evenGenBetween log i j + evenGenBetween log j k := by
+  induction k with
+  | zero =>
+    have : j = 0 := by omega
+    subst this
+    rw [eGB_of_le log (Nat.le_refl 0)]; rfl
+  | succ k ih =>
+    by_cases hjk' : j = k + 1
+    · subst hjk'; rw [eGB_of_le log (Nat.le_refl _)]; rfl
+    · have hjk'' : j ≤ k := by omega
+      rw [eGB_succ, eGB_succ log j, ih hjk'']
+      have h1 : i < k + 1 := by omega
+      have h2 : j < k + 1 := by omega
+      simp only [h1, h2, true_and]
+      omega
+
+theorem eGB_append {log l : Log} {i j : Nat} (h : j < log.length) :
+    evenGenBetween (log ++ l) i j = evenGenBetween log i j := by
+  induction j with
+  | zero => rw [eGB_of_le _ (Nat.zero_le _), eGB_of_le _ (Nat.zero_le _)]
+  | succ j ih => rw [eGB_succ, eGB_succ, ih (by omega), isEG_append h]
+
+/-- no even generation message in `(j, k]` -/
+theorem eGB_skip (log : Log) {i j k : Nat} (hjk : j ≤ k)
+    (h : ∀ t, j < t → t ≤ k → isEG log t = false) :
+    evenGenBetween log i k = evenGenBetween log i j := by
+  induction k with
+  | zero =>
+    have : j = 0 := by omega
+    subst this; rfl
+  | succ k ih =>
+    by_cases hjk' : j = k + 1
+    · subst hjk'; rfl
+    · rw [eGB_succ, ih (by omega) (fun t h1 h2 => h t h1 (by omega)), h (k + 1) (by omega) (Nat.le_refl _)]
+      simp
+
+def cntTo (log : Log) (n : Nat) : Nat := ((List.range n).filter (fun k => isEG log k)).length
+
+theorem isEG_cons_succ (a : Msg) (log : Log) (k : Nat) : isEG (a :: log) (k + 1) = isEG log k := by
+  unfold isEG; simp
+
+theorem cntTo_cons (a : Msg) (log : Log) (n : Nat) :
+    cntTo (a :: log) (n + 1) = (if isEvenGen a then 1 else 0) + cntTo log n := by
+  unfold cntTo
+  rw [List.range_succ_eq_map, List.filter_cons]
+  have h0 : isEG (a :: log) 0 = isEvenGen a := by unfold isEG; simp
+  have hm : (List.map Nat.succ (List.range n)).filter (fun k => isEG (a :: log) k) =
+      List.map Nat.succ ((List.range n).filter (fun k => isEG log k)) := by
+    rw [List.filter_map]
+    congr 1
+  rw [h0, hm]
+  by_cases h : isEvenGen a = true
+  · simp [h]; omega
+  · simp [h]
+
+theorem cntTo_length (log : Log) : cntTo log log.length = completedUpdates log := by
+  induction log with
+  | nil => rfl
+  | cons a log ih =>
+    rw [List.length_cons, cntTo_cons, ih]
+    unfold completedUpdates
+    rw [List.filter_cons]
+    by_cases h : isEvenGen a = true
+    · simp [h]; omega
+    · simp [h]
+
+theorem cntTo_succ (log : Log) (n : Nat) :
+    cntTo log (n + 1) = cntTo log n + (if isEG log n = true then 1 else 0) := by
+  unfold cntTo
+  rw [List.range_succ, List.filter_append, List.length_append]
+  congr 1
+  by_cases h : isEG log n = true
+  · simp [h]
+  · simp [h]
+
+theorem cntTo_mono (log : Log) {m n : Nat} (h : m ≤ n) : cntTo log m ≤ cntTo log n := by
+  induction n with
+  | zero => have : m = 0 := by omega
+            subst this; exact Nat.le_refl _
+  | succ n ih =>
+    by_cases hm : m = n + 1
+    · subst hm; exact Nat.le_refl _
+    · rw [cntTo_succ]; have := ih (by omega); omega
+
+theorem cntTo_ge_length (log : Log) {n : Nat} (h : log.length ≤ n) : cntTo log n = cntTo log log.length := by
+  induction n with
+  | zero => have : log.length = 0 := by omega
+            rw [this]
+  | succ n ih =>
+    by_cases hn : log.length = n + 1
+    · rw [hn]
+    · rw [cntTo_succ, ih (by omega)]
+      have : isEG log n = false := by
+        unfold isEG; rw [List.getElem?_eq_none (by omega)]; rfl
+      simp [this]
+
+theorem eGB_le_cntTo (log : Log) (i j : Nat) : evenGenBetween log i j ≤ cntTo log (j + 1) := by
+  induction j with
+  | zero =>
+    rw [eGB_of_le log (Nat.zero_le _)]; exact Nat.zero_le _
+  | succ j ih =>
+    rw [eGB_succ, cntTo_succ]
+    by_cases h : isEG log (j + 1) = true
+    · simp only [h, and_true, if_true]
+      split <;> omega
+    · simp only [h]
+      simp
+      exact ih
+
+theorem eGB_le_completed (log : Log) (i j : Nat) : evenGenBetween log i j ≤ completedUpdates log := by
+  rw [← cntTo_length]
+  by_cases h : j + 1 ≤ log.length
+  · exact Nat.le_trans (eGB_le_cntTo log i j) (cntTo_mono log h)
+  · rw [← cntTo_ge_length log (n := j + 1) (by omega)]
+    exact eGB_le_cntTo log i j
+
+theorem completedUpdates_append (log l : Log) : completedUpdates log ≤ completedUpdates (log ++ l) := by
+  unfold completedUpdates
+  rw [List.filter_append, List.length_append]
+  omega
+
+/-! ### views, `admissible`, `load` -/
+
+theorem cohOf_setCoh_same (v : View) (x : Loc) (j : Nat) : (v.setCoh x j).cohOf x = j := by
+  simp [View.cohOf, View.setCoh]
+
+theorem cohOf_setCoh_ne (v : View) {x y : Loc} (j : Nat) (h : y ≠ x) : (v.setCoh x j).cohOf y = v.cohOf y := by
+  have hxy : (x == y) = false := by
+    cases hb : (x == y) with
+    | false => rfl
+    | true => exact absurd ((loc_beq_iff _ _).1 hb).symm h
+  have hf : (fun (a : Loc × Nat) => decide ((a.1 != x) = true ∧ (a.1 == y) = true)) = (fun a => a.1 == y) := by
+    funext a
+    cases hb : (a.1 == y) with
+    | false => simp
+    | true =>
+      have : a.1 = y := (loc_beq_iff _ _).1 hb
+      have hne : (a.1 != x) = true := by simp [this, h]
+      simp [hne]
+  simp only [View.cohOf, View.setCoh, List.find?_cons, hxy, List.find?_filter]
+  rw [hf]
+
+/-- the view after a load that read message `j` carrying `c` -/
+def loadView (v : View) (x : Loc) (ord : Ord) (j c : Nat) : View :=
+  if ord.isAcq then { cur := max v.cur c, acq := max v.acq c, coh := (v.setCoh x j).coh }
+  else { cur := v.cur, acq := max v.acq c, coh := (v.setCoh x j).coh }
+
+theorem loadView_cohOf_same (v : View) (x : Loc) (ord : Ord) (j c : Nat) :
+    (loadView v x ord j c).cohOf x = j := by
+  have := cohOf_setCoh_same v x j
+  unfold loadView; split <;> exact this
+
+theorem loadView_cohOf_ne (v : View) {x y : Loc} (ord : Ord) (j c : Nat) (h : y ≠ x) :
+    (loadView v x ord j c).cohOf y = v.cohOf y := by
+  have := cohOf_setCoh_ne v j h
+  unfold loadView; split <;> exact this
+
+theorem loadView_acq (v : View) (x : Loc) (ord : Ord) (j c : Nat) :
+    (loadView v x ord j c).acq = max v.acq c := by
+  unfold loadView; split <;> rfl
+
+theorem loadView_cur_acq (v : View) (x : Loc) (ord : Ord) (j c : Nat) (h : ord.isAcq = true) :
+    (loadView v x ord j c).cur = max v.cur c := by
+  unfold loadView; rw [if_pos h]
+
+theorem loadView_cur_ge (v : View) (x : Loc) (ord : Ord) (j c : Nat) :
+    v.cur ≤ (loadView v x ord j c).cur := by
+  unfold loadView; split
+  · exact Nat.le_max_left _ _
+  · exact Nat.le_refl _
+
+theorem loadView_cur_le (v : View) (x : Loc) (ord : Ord) (j c n : Nat) (h1 : v.cur ≤ n) (h2 : c ≤ n) :
+    (loadView v x ord j c).cur ≤ n := by
+  unfold loadView; split
+  · exact Nat.max_le.2 ⟨h1, h2⟩
+  · exact h1
+
+theorem mem_admissible {log : Log} {v : View} {x : Loc} {j : Nat} :
+    j ∈ admissible log v x ↔
+      j < log.length ∧ v.cohOf x ≤ j ∧ (lastBefore log x v.cur).getD 0 ≤ j ∧ isLoc log x j = true := by
+  unfold admissible
+  simp only [List.mem_filter, List.mem_range, Bool.and_eq_true, decide_eq_true_eq, Nat.max_le]
+  unfold isLoc
+  constructor
+  · rintro ⟨h1, ⟨h2, h3⟩, h4⟩; exact ⟨h1, h2, h3, h4⟩
+  · rintro ⟨h1, h2, h3, h4⟩; exact ⟨h1, ⟨h2, h3⟩, h4⟩
+
+theorem load_spec (log : Log) (v : View) (x : Loc) (ord : Ord) (pick : Nat)
+    (hne : admissible log v x ≠ []) :
+    ∃ j m, j ∈ admissible log v x ∧ log[j]? = some m ∧
+      load log v x ord pick = (m.val, j, loadView v x ord j m.carried) := by
+  have hlen : 0 < (admissible log v x).length := List.length_pos_iff.2 hne
+  have hidx : min pick ((admissible log v x).length - 1) < (admissible log v x).reverse.length := by
+    rw [List.length_reverse]; omega
+  obtain ⟨j, hj⟩ : ∃ j, (admissible log v x).reverse[min pick ((admissible log v x).length - 1)]? = some j :=
+    ⟨_, List.getElem?_eq_getElem hidx⟩
+  have hmem : j ∈ admissible log v x := by
+    have := List.mem_of_getElem? hj
+    exact List.mem_reverse.1 this
+  have hlt : j < log.length := (mem_admissible.1 hmem).1
+  refine ⟨j, log[j], hmem, List.getElem?_eq_getElem hlt, ?_⟩
+  unfold load
+  simp only [hj, List.getElem?_eq_getElem hlt, Option.getD_some]
+  unfold loadView
+  split <;> rfl
+
+/-! ### the initial block -/
+
+theorem initBlock_length (ver gen : Nat) (cells0 : List Nat) :
+    (initBlock ver gen cells0).length = cells0.length + 2 := by
+  simp [initBlock]
+
+theorem list7 {cells0 : List Nat} (hc : cells0.length = N) :
+    ∃ a b c d e f g, cells0 = [a, b, c, d, e, f, g] := by
+  match cells0, hc with
+  | [a, b, c, d, e, f, g], _ => exact ⟨a, b, c, d, e, f, g, rfl⟩
+
+theorem initBlock_eq (ver gen a b c d e f g : Nat) :
+    initBlock ver gen [a, b, c, d, e, f, g] =
+      [⟨.cell 0, a, 9⟩, ⟨.cell 1, b, 9⟩, ⟨.cell 2, c, 9⟩, ⟨.cell 3, d, 9⟩, ⟨.cell 4, e, 9⟩,
+       ⟨.cell 5, f, 9⟩, ⟨.cell 6, g, 9⟩, ⟨.version, ver, 9⟩, ⟨.gen, gen, 9⟩] := by
+  rfl
+
+theorem initBlock_facts (ver gen : Nat) {cells0 : List Nat} (hc : cells0.length = N) :
+    (∀ c, c < N → ∃ m, (initBlock ver gen cells0)[c]? = some m ∧ m.loc = .cell c) ∧
+    (∀ (i : Nat) (m : Msg), (initBlock ver gen cells0)[i]? = some m → m.carried = N + 2) ∧
+    (∀ (i : Nat) (m : Msg), (initBlock ver gen cells0)[i]? = some m → m.loc = .gen → i = N + 1 ∧ m.val = gen) ∧
+    (∃ m, (initBlock ver gen cells0)[N + 1]? = some m ∧ m.loc = .gen ∧ m.val = gen) ∧
+    (∀ (i : Nat) (m : Msg) (c : Nat), (initBlock ver gen cells0)[i]? = some m → m.loc = .cell c → i = c ∧ c < N) ∧
+    pubCells (initBlock ver gen cells0) (N + 1) = cells0 := by
+  obtain ⟨a, b, c, d, e, f, g, rfl⟩ := list7 hc
+  rw [initBlock_eq]
+  refine ⟨?_, ?_, ?_, ?_, ?_, ?_⟩
+  · intro c hc
+    have : c < 7 := hc
+    rcases c with _|_|_|_|_|_|_|c <;> first | omega | simp
+  · intro i m h
+    rcases i with _|_|_|_|_|_|_|_|_|i <;> simp at h <;> subst h <;> rfl
+  · intro i m h hl
+    rcases i with _|_|_|_|_|_|_|_|_|i <;> simp at h <;> subst h <;> simp [N] at hl ⊢
+  · simp [N]
+  · intro i m c h hl
+    rcases i with _|_|_|_|_|_|_|_|_|i <;> simp at h <;> subst h <;> simp [N] at hl ⊢ <;> omega
+  · simp [pubCells, N, List.range_succ, lastBefore_succ, lastBefore_zero, isLoc]
+
+/-! ### prefix stability of `pubCells` -/
+
+theorem pubCells_append {log l : Log} {i : Nat} (h : i ≤ log.length) :
+    pubCells (log ++ l) i = pubCells log i := by
+  unfold pubCells
+  apply List.map_congr_left
+  intro c _
+  rw [lastBefore_append h]
+  cases hl : lastBefore log (.cell c) i with
+  | none => rfl
+  | some j =>
+    have hj : j < log.length := by
+      have := (lastBefore_eq_some_iff.1 hl).1; omega
+    simp only [List.getElem?_append_left hj]
+
+/-! ### newest messages -/
+
+/-- `ℓ` is the newest generation message and holds `v` -/
+def LastGen (log : Log) (ℓ v : Nat) : Prop :=
+  (∃ m, log[ℓ]? = some m ∧ m.loc = .gen ∧ m.val = v) ∧
+    ∀ k m, ℓ < k → log[k]? = some m → m.loc ≠ .gen
+
+/-- the newest message at cell `c` holds `v` -/
+def LastCell (log : Log) (c v : Nat) : Prop :=
+  ∃ (j : Nat) (m : Msg), log[j]? = some m ∧ m.loc = .cell c ∧ m.val = v ∧
+    ∀ (k : Nat) (mk : Msg), j < k → log[k]? = some mk → mk.loc ≠ .cell c
+
+theorem LastGen.snoc_ne {log : Log} {ℓ v : Nat} (h : LastGen log ℓ v) {x : Msg} (hx : x.loc ≠ .gen) :
+    LastGen (log ++ [x]) ℓ v := by
+  obtain ⟨⟨m, hm, hl, hv⟩, h2⟩ := h
+  refine ⟨⟨m, getElem?_append_some hm, hl, hv⟩, fun k mk hk hmk => ?_⟩
+  rcases getElem?_snoc_cases hmk with ⟨_, h'⟩ | ⟨_, rfl⟩
+  · exact h2 k mk hk h'
+  · exact hx
+
+theorem LastGen.snoc_gen (log : Log) {x : Msg} (hx : x.loc = .gen) :
+    LastGen (log ++ [x]) log.length x.val := by
+  refine ⟨⟨x, getElem?_snoc_length log x, hx, rfl⟩, fun k mk hk hmk => ?_⟩
+  have := lt_length_of_getElem? hmk
+  rw [List.length_append, List.length_singleton] at this
+  omega
+
+theorem LastCell.snoc_ne {log : Log} {c v : Nat} (h : LastCell log c v) {x : Msg} (hx : x.loc ≠ .cell c) :
+    LastCell (log ++ [x]) c v := by
+  obtain ⟨j, m, hm, hl, hv, h2⟩ := h
+  refine ⟨j, m, getElem?_append_some hm, hl, hv, fun k mk hk hmk => ?_⟩
+  rcases getElem?_snoc_cases hmk with ⟨_, h'⟩ | ⟨_, rfl⟩
+  · exact h2 k mk hk h'
+  · exact hx
+
+theorem LastCell.snoc_cell (log : Log) {x : Msg} {c : Nat} (hx : x.loc = .cell c) :
+    LastCell (log ++ [x]) c x.val := by
+  refine ⟨log.length, x, getElem?_snoc_length log x, hx, rfl, fun k mk hk hmk => ?_⟩
+  have := lt_length_of_getElem? hmk
+  rw [List.length_append, List.length_singleton] at this
+  omega
+
+theorem LastGen.lastBefore {log : Log} {ℓ v : Nat} (h : LastGen log ℓ v) :
+    lastBefore log .gen log.length = some ℓ := by
+  obtain ⟨⟨m, hm, hl, _⟩, h2⟩ := h
+  exact lastBefore_eq_some_iff.2 ⟨lt_length_of_getElem? hm, ⟨m, hm, hl⟩, fun k mk hk _ hmk => h2 k mk hk hmk⟩
+
+theorem LastGen.latest {log : Log} {ℓ v : Nat} (h : LastGen log ℓ v) : latest log .gen = v := by
+  unfold SL.latest
+  rw [h.lastBefore]
+  obtain ⟨⟨m, hm, _, hv⟩, _⟩ := h
+  simp [hm, hv]
+
+theorem LastCell.lastBefore {log : Log} {c v : Nat} (h : LastCell log c v) :
+    ∃ j m, lastBefore log (.cell c) log.length = some j ∧ log[j]? = some m ∧ m.val = v := by
+  obtain ⟨j, m, hm, hl, hv, h2⟩ := h
+  exact ⟨j, m, lastBefore_eq_some_iff.2 ⟨lt_length_of_getElem? hm, ⟨m, hm, hl⟩,
+    fun k mk hk _ hmk => h2 k mk hk hmk⟩, hm, hv⟩
+
+/-! ### the log invariant -/
+
+/-- potential of a generation value: constant along even→odd and odd→same-odd edges, +1 (mod 32767)
+    along odd→even edges -/
+def phi (v : Nat) : Nat := (v / 2 + 32766) % 32767
+
+theorem phi_lt (v : Nat) : phi v < 32767 := Nat.mod_lt _ (by decide)
+
+structure LogInv (a : Ann) (ver gen : Nat) (cells0 : List Nat) (log : Log) (written : List (List Nat)) : Prop where
+  pre : ∀ (i : Nat) (m : Msg), (initBlock ver gen cells0)[i]? = some m → log[i]? = some m
+  carLe : ∀ (i : Nat) (m : Msg), log[i]? = some m → m.carried ≤ log.length
+  genLt : ∀ (i : Nat) (m : Msg), log[i]? = some m → m.loc = .gen → m.val < 65536
+  genNz : ∀ (i : Nat) (m : Msg), log[i]? = some m → m.loc = .gen → N + 1 < i → m.val ≠ 0
+  genCar : a.adequate = true → ∀ (i : Nat) (m : Msg), log[i]? = some m → m.loc = .gen →
+      m.val % 2 = 0 → i + 1 ≤ m.carried
+  pot : ∀ (i : Nat) (m : Msg), log[i]? = some m → m.loc = .gen →
+      phi m.val = (phi gen + evenGenBetween log (N + 1) i) % 32767
+  cellOdd : ∀ (j : Nat) (m : Msg) (c : Nat), N + 2 ≤ j → log[j]? = some m → m.loc = .cell c →
+      ∃ (o : Nat) (mo : Msg), o < j ∧ log[o]? = some mo ∧ mo.loc = .gen ∧ mo.val % 2 = 1 ∧
+        (a.adequate = true → o < m.carried) ∧
+        ∀ (k : Nat) (mk : Msg), o < k → k < j → log[k]? = some mk → mk.loc ≠ .gen
+  pub : ∀ (e : Nat) (m : Msg), log[e]? = some m → m.loc = .gen → m.val % 2 = 0 → m.val ≠ 0 →
+      pubCells log e = cells0 ∨ pubCells log e ∈ written
+  lastGen : ∃ ℓ v, LastGen log ℓ v
+
+theorem LogInv.init (a : Ann) (ver gen : Nat) {cells0 : List Nat} (hc : cells0.length = N) (hg : gen < 65536) :
+    LogInv a ver gen cells0 (initBlock ver gen cells0) [] := by
+  obtain ⟨f1, f2, f3, f4, f5, f6⟩ := initBlock_facts ver gen hc
+  have hlen : (initBlock ver gen cells0).length = N + 2 := by rw [initBlock_length, hc]
+  refine ⟨fun _ _ h => h, ?_, ?_, ?_, ?_, ?_, ?_, ?_, ?_⟩
+  · intro i m hm; rw [f2 i m hm, hlen]; exact Nat.le_refl _
+  · intro i m hm hl; rw [(f3 i m hm hl).2]; exact hg
+  · intro i m hm hl hi; have := (f3 i m hm hl).1; omega
+  · intro _ i m hm hl _; rw [f2 i m hm, (f3 i m hm hl).1]; exact Nat.le_refl _
+  · intro i m hm hl
+    obtain ⟨rfl, hv⟩ := f3 i m hm hl
+    rw [eGB_of_le _ (Nat.le_refl _), hv, Nat.add_zero, Nat.mod_eq_of_lt (phi_lt gen)]
+  · intro j m c hj hm _
+    have := lt_length_of_getElem? hm; omega
+  · intro e m hm hl _ _
+    left; rw [(f3 e m hm hl).1]; exact f6
+  · obtain ⟨m, hm, hl, hv⟩ := f4
+    refine ⟨N + 1, gen, ⟨m, hm, hl, hv⟩, fun k mk hk hmk => ?_⟩
+    have := lt_length_of_getElem? hmk; omega
+
+theorem LogInv.len {a : Ann} {ver gen : Nat} {cells0 : List Nat} {log : Log} {written : List (List Nat)}
+    (h : LogInv a ver gen cells0 log written) (hc : cells0.length = N) : N + 2 ≤ log.length := by
+  obtain ⟨_, _, _, ⟨m, hm, _, _⟩, _, _⟩ := initBlock_facts ver gen hc
+  have := lt_length_of_getElem? (h.pre _ _ hm); omega
+
+theorem LogInv.mono_written {a : Ann} {ver gen : Nat} {cells0 : List Nat} {log : Log}
+    {written written' : List (List Nat)} (h : LogInv a ver gen cells0 log written)
+    (hw : ∀ r, r ∈ written → r ∈ written') : LogInv a ver gen cells0 log written' :=
+  { h with pub := fun e m hm hl he hz => (h.pub e m hm hl he hz).imp id (hw _) }
+
+theorem LogInv.snoc {a : Ann} {ver gen : Nat} {cells0 : List Nat} {log : Log} {written : List (List Nat)}
+    (h : LogInv a ver gen cells0 log written) (hc : cells0.length = N) (x : Msg)
+    (hcar : x.carried ≤ log.length + 1)
+    (hgen : x.loc = .gen → ∀ ℓ v, LastGen log ℓ v →
+        x.val < 65536 ∧ x.val ≠ 0 ∧ (a.adequate = true → x.val % 2 = 0 → log.length + 1 ≤ x.carried) ∧
+        phi x.val = (phi v + if x.val % 2 = 0 then 1 else 0) % 32767 ∧
+        (x.val % 2 = 0 → pubCells log log.length ∈ written))
+    (hcell : ∀ c, x.loc = .cell c →
+        ∃ ℓ v, LastGen log ℓ v ∧ v % 2 = 1 ∧ (a.adequate = true → ℓ < x.carried)) :
+    LogInv a ver gen cells0 (log ++ [x]) written := by
+  have hlen := h.len hc
+  obtain ⟨ℓ, v, hLG⟩ := h.lastGen
+  have hℓ : ℓ < log.length := by
+    obtain ⟨⟨m, hm, _, _⟩, _⟩ := hLG; exact lt_length_of_getElem? hm
+  refine ⟨?_, ?_, ?_, ?_, ?_, ?_, ?_, ?_, ?_⟩
+  · intro i m hm; exact getElem?_append_some (h.pre i m hm)
+  · intro i m hm
+    rw [List.length_append, List.length_singleton]
+    rcases getElem?_snoc_cases hm with ⟨_, h'⟩ | ⟨_, rfl⟩
+    · have := h.carLe i m h'; omega
+    · exact hcar
+  · intro i m hm hl
+    rcases getElem?_snoc_cases hm with ⟨_, h'⟩ | ⟨_, rfl⟩
+    · exact h.genLt i m h' hl
+    · exact (hgen hl ℓ v hLG).1
+  · intro i m hm hl hi
+    rcases getElem?_snoc_cases hm with ⟨_, h'⟩ | ⟨_, rfl⟩
+    · exact h.genNz i m h' hl hi
+    · exact (hgen hl ℓ v hLG).2.1
+  · intro ha i m hm hl he
+    rcases getElem?_snoc_cases hm with ⟨_, h'⟩ | ⟨hi, rfl⟩
+    · exact h.genCar ha i m h' hl he
+    · rw [hi]; exact (hgen hl ℓ v hLG).2.2.1 ha he
+  · intro i m hm hl
+    rcases getElem?_snoc_cases hm with ⟨hi, h'⟩ | ⟨hi, rfl⟩
+    · rw [eGB_append hi]; exact h.pot i m h' hl
+    · obtain ⟨mℓ, hmℓ, hlℓ, hvℓ⟩ := hLG.1
+      have hpℓ := h.pot ℓ mℓ hmℓ hlℓ
+      rw [hvℓ] at hpℓ
+      have hpx := (hgen hl ℓ v hLG).2.2.2.1
+      obtain ⟨n', hn'⟩ : ∃ n', log.length = n' + 1 := ⟨log.length - 1, by omega⟩
+      have hskip : evenGenBetween log (N + 1) n' = evenGenBetween log (N + 1) ℓ := by
+        apply eGB_skip log (by omega)
+        intro t ht1 ht2
+        cases hb : isEG log t with
+        | false => rfl
+        | true =>
+          obtain ⟨mt, hmt, hlt, _⟩ := isEG_iff.1 hb
+          exact absurd hlt (hLG.2 t mt ht1 hmt)
+      have hEG : (isEG (log ++ [m]) (n' + 1) = true) ↔ m.val % 2 = 0 := by
+        rw [isEG_iff, ← hn']
+        constructor
+        · rintro ⟨m', hm', _, he⟩
+          rw [getElem?_snoc_length] at hm'
+          cases hm'; exact he
+        · intro he; exact ⟨m, getElem?_snoc_length log m, hl, he⟩
+      rw [hi, hn', eGB_succ, eGB_append (by omega), hskip]
+      by_cases he : m.val % 2 = 0
+      · rw [if_pos he] at hpx
+        rw [if_pos ⟨by omega, hEG.2 he⟩]
+        omega
+      · rw [if_neg he] at hpx
+        rw [if_neg (fun hh => he (hEG.1 hh.2))]
+        omega
+  · intro j m c hj hm hl
+    rcases getElem?_snoc_cases hm with ⟨hjl, h'⟩ | ⟨hjl, rfl⟩
+    · obtain ⟨o, mo, h1, h2, h3, h4, h5, h6⟩ := h.cellOdd j m c hj h' hl
+      refine ⟨o, mo, h1, getElem?_append_some h2, h3, h4, h5, fun k mk hk1 hk2 hmk => ?_⟩
+      rcases getElem?_snoc_cases hmk with ⟨_, hk'⟩ | ⟨hk', _⟩
+      · exact h6 k mk hk1 hk2 hk'
+      · omega
+    · obtain ⟨ℓ', v', hLG', hodd, hcar'⟩ := hcell c hl
+      obtain ⟨⟨mo, hmo, hlo, hvo⟩, hlast⟩ := hLG'
+      refine ⟨ℓ', mo, by have := lt_length_of_getElem? hmo; omega, getElem?_append_some hmo, hlo,
+        by rw [hvo]; exact hodd, hcar', fun k mk hk1 hk2 hmk => ?_⟩
+      rcases getElem?_snoc_cases hmk with ⟨_, hk'⟩ | ⟨hk', _⟩
+      · exact hlast k mk hk1 hk'
+      · omega
+  · intro e m hm hl he hz
+    rcases getElem?_snoc_cases hm with ⟨hi, h'⟩ | ⟨hi, rfl⟩
+    · rw [pubCells_append (by omega)]; exact h.pub e m h' hl he hz
+    · right; rw [hi, pubCells_append (Nat.le_refl _)]
+      exact (hgen hl ℓ v hLG).2.2.2.2 he
+  · by_cases hx : x.loc = .gen
+    · exact ⟨log.length, x.val, LastGen.snoc_gen log hx⟩
+    · exact ⟨ℓ, v, hLG.snoc_ne hx⟩
+
+/-! ### the writer invariant -/
+
+theorem Ann.adequate_iff (a : Ann) : a.adequate = true ↔
+    a.wStore2.isRel = true ∧ (∃ o, a.wFence = some o ∧ o.isRel = true) ∧ a.rGen1.isAcq = true ∧
+      a.rGen2.isAcq = true ∧ (∃ o, a.rFence = some o ∧ o.isAcq = true) := by
+  unfold Ann.adequate
+  cases a.wFence <;> cases a.rFence <;> simp [and_assoc]
+
+theorem LastGen.unique {log : Log} {ℓ v ℓ' v' : Nat} (h : LastGen log ℓ v) (h' : LastGen log ℓ' v') :
+    ℓ = ℓ' ∧ v = v' := by
+  obtain ⟨⟨m, hm, hl, hv⟩, h2⟩ := h
+  obtain ⟨⟨m', hm', hl', hv'⟩, h2'⟩ := h'
+  have : ℓ = ℓ' := by
+    by_cases h1 : ℓ < ℓ'
+    · exact absurd hl' (h2 ℓ' m' h1 hm')
+    · by_cases h3 : ℓ' < ℓ
+      · exact absurd hl (h2' ℓ m h3 hm)
+      · omega
+  subst this
+  rw [hm] at hm'; cases hm'
+  exact ⟨rfl, hv.symm.trans hv'⟩
+
+def WPcInv (a : Ann) (log : Log) (w : Writer) (written : List (List Nat)) : Prop :=
+  match w.pc with
+  | .idle => True
+  | .newVersion => True
+  | .loadGen rec => rec ∈ written ∧ rec.length = N
+  | .store1 rec g => rec ∈ written ∧ rec.length = N ∧ ∃ ℓ v, LastGen log ℓ v ∧ g = genStart v
+  | .fence rec g => rec ∈ written ∧ rec.length = N ∧ g % 2 = 1 ∧ ∃ ℓ, LastGen log ℓ g
+  | .copy rec g todo => rec ∈ written ∧ rec.length = N ∧ g % 2 = 1 ∧ ∃ ℓ, LastGen log ℓ g ∧
+      (a.adequate = true → ℓ < w.relFence) ∧ ∀ c, c < N → c ∉ todo → LastCell log c (rec[c]?.getD 0)
+  | .store2 rec g => rec ∈ written ∧ rec.length = N ∧ g % 2 = 1 ∧ ∃ ℓ, LastGen log ℓ g ∧
+      ∀ c, c < N → LastCell log c (rec[c]?.getD 0)
+
+/-- what one writer access must preserve -/
+def WStepGoal (a : Ann) (ver gen : Nat) (cells0 : List Nat) (written : List (List Nat))
+    (out : Log × Writer × String) : Prop :=
+  LogInv a ver gen cells0 out.1 written ∧ WPcInv a out.1 out.2.1 written ∧ out.2.1.relFence ≤ out.1.length
+
+section wstep
+variable {a : Ann} {ver gen : Nat} {cells0 : List Nat} {log : Log} {written : List (List Nat)}
+
+theorem wStep_newVersion (hL : LogInv a ver gen cells0 log written) (hc : cells0.length = N)
+    (rel : Nat) (hrel : rel ≤ log.length) (pick : Nat) :
+    WStepGoal a ver gen cells0 written (wStep a log ⟨.newVersion, rel⟩ pick) := by
+  simp only [wStep, storeMsg, WStepGoal]
+  refine ⟨?_, trivial, ?_⟩
+  · apply hL.snoc hc
+    · show (if a.wVersion.isRel = true then log.length + 1 else rel) ≤ log.length + 1
+      split <;> omega
+    · intro h; cases h
+    · intro c h; cases h
+  · rw [List.length_append]; show rel ≤ _; omega
+
+theorem wStep_loadGen (hL : LogInv a ver gen cells0 log written)
+    (rel : Nat) (hrel : rel ≤ log.length) (rec : List Nat)
+    (hP : WPcInv a log ⟨.loadGen rec, rel⟩ written) (pick : Nat) :
+    WStepGoal a ver gen cells0 written (wStep a log ⟨.loadGen rec, rel⟩ pick) := by
+  simp only [wStep, WStepGoal]
+  obtain ⟨h1, h2⟩ := hP
+  obtain ⟨ℓ, v, hLG⟩ := hL.lastGen
+  exact ⟨hL, ⟨h1, h2, ℓ, v, hLG, by rw [hLG.latest]⟩, hrel⟩
+
+theorem genStart_facts {v : Nat} (hv : v < 65536) :
+    genStart v < 65536 ∧ genStart v ≠ 0 ∧ genStart v % 2 = 1 ∧ phi (genStart v) = phi v := by
+  unfold genStart phi
+  split <;> omega
+
+theorem genFinish_facts {g : Nat} (hg : g < 65536) (ho : g % 2 = 1) :
+    genFinish g < 65536 ∧ genFinish g ≠ 0 ∧ genFinish g % 2 = 0 ∧ phi (genFinish g) = (phi g + 1) % 32767 := by
+  unfold genFinish phi
+  simp only
+  split <;> omega
+
+theorem LastGen.lt {log : Log} {ℓ v : Nat} (h : LastGen log ℓ v) : ℓ < log.length := by
+  obtain ⟨⟨m, hm, _, _⟩, _⟩ := h; exact lt_length_of_getElem? hm
+
+theorem LogInv.lastGen_lt {log : Log} {ℓ v : Nat} (hL : LogInv a ver gen cells0 log written)
+    (h : LastGen log ℓ v) : v < 65536 := by
+  obtain ⟨⟨m, hm, hl, hv⟩, _⟩ := h
+  rw [← hv]; exact hL.genLt ℓ m hm hl
+
+theorem wStep_store1 (hL : LogInv a ver gen cells0 log written) (hc : cells0.length = N)
+    (rel : Nat) (hrel : rel ≤ log.length) (rec : List Nat) (g : Nat)
+    (hP : WPcInv a log ⟨.store1 rec g, rel⟩ written) (pick : Nat) :
+    WStepGoal a ver gen cells0 written (wStep a log ⟨.store1 rec g, rel⟩ pick) := by
+  simp only [wStep, storeMsg, WStepGoal]
+  obtain ⟨h1, h2, ℓ, v, hLG, rfl⟩ := hP
+  have hv := hL.lastGen_lt hLG
+  obtain ⟨f1, f2, f3, f4⟩ := genStart_facts hv
+  refine ⟨?_, ?_, ?_⟩
+  · apply hL.snoc hc
+    · show (if a.wStore1.isRel = true then log.length + 1 else rel) ≤ log.length + 1
+      split <;> omega
+    · intro _ ℓ' v' hLG'
+      obtain ⟨_, rfl⟩ := hLG.unique hLG'
+      refine ⟨f1, f2, ?_, ?_, ?_⟩
+      · intro _ he; exact absurd he (by show ¬ (genStart v % 2 = 0); omega)
+      · show phi (genStart v) = (phi v + if genStart v % 2 = 0 then 1 else 0) % 32767
+        rw [if_neg (by omega), f4, Nat.add_zero, Nat.mod_eq_of_lt (phi_lt v)]
+      · intro he; exact absurd he (by show ¬ (genStart v % 2 = 0); omega)
+    · intro c h; cases h
+  · cases hf : a.wFence with
+    | some o =>
+      exact ⟨h1, h2, f3, log.length, LastGen.snoc_gen log rfl⟩
+    | none =>
+      refine ⟨h1, h2, f3, log.length, LastGen.snoc_gen log rfl, ?_, ?_⟩
+      · intro ha
+        obtain ⟨_, ⟨o, ho, _⟩, _⟩ := (Ann.adequate_iff a).1 ha
+        rw [hf] at ho; cases ho
+      · intro c hc' hn
+        exact absurd (List.mem_range.2 (by omega)) hn
+  · rw [List.length_append]; show rel ≤ _; omega
+
+theorem wStep_fence (hL : LogInv a ver gen cells0 log written)
+    (rel : Nat) (hrel : rel ≤ log.length) (rec : List Nat) (g : Nat)
+    (hP : WPcInv a log ⟨.fence rec g, rel⟩ written) (pick : Nat) :
+    WStepGoal a ver gen cells0 written (wStep a log ⟨.fence rec g, rel⟩ pick) := by
+  simp only [wStep, WStepGoal]
+  obtain ⟨h1, h2, h3, ℓ, hLG⟩ := hP
+  refine ⟨hL, ⟨h1, h2, h3, ℓ, hLG, ?_, ?_⟩, ?_⟩
+  · intro ha
+    obtain ⟨_, ⟨o, ho, hr⟩, _⟩ := (Ann.adequate_iff a).1 ha
+    show ℓ < (if (a.wFence.getD .relaxed).isRel = true then log.length else rel)
+    rw [ho]; simp only [Option.getD_some, hr, if_true]
+    exact hLG.lt
+  · intro c hc' hn
+    exact absurd (List.mem_range.2 (by omega)) hn
+  · show (if (a.wFence.getD .relaxed).isRel = true then log.length else rel) ≤ log.length
+    split <;> omega
+
+end wstep
+
+theorem rec_eq_map {rec : List Nat} (hlen : rec.length = N) :
+    rec = (List.range N).map (fun c => rec[c]?.getD 0) := by
+  obtain ⟨a, b, c, d, e, f, g, rfl⟩ := list7 hlen
+  rfl
+
+theorem pubCells_eq_of_LastCell {log : Log} {rec : List Nat} (hlen : rec.length = N)
+    (h : ∀ c, c < N → LastCell log c (rec[c]?.getD 0)) : pubCells log log.length = rec := by
+  conv => rhs; rw [rec_eq_map hlen]
+  unfold pubCells
+  apply List.map_congr_left
+  intro c hc
+  obtain ⟨j, m, hlb, hm, hv⟩ := (h c (List.mem_range.1 hc)).lastBefore
+  simp [hlb, hm, hv]
+
+section wstep2
+variable {a : Ann} {ver gen : Nat} {cells0 : List Nat} {log : Log} {written : List (List Nat)}
+
+theorem getElem?_min_none {todo : List Nat} {pick : Nat}
+    (h : todo[min pick (todo.length - 1)]? = none) : todo = [] := by
+  have := List.getElem?_eq_none_iff.1 h
+  apply List.eq_nil_of_length_eq_zero
+  omega
+
+theorem wStep_copy (hL : LogInv a ver gen cells0 log written) (hc : cells0.length = N)
+    (rel : Nat) (hrel : rel ≤ log.length) (rec : List Nat) (g : Nat) (todo : List Nat)
+    (hP : WPcInv a log ⟨.copy rec g todo, rel⟩ written) (pick : Nat) :
+    WStepGoal a ver gen cells0 written (wStep a log ⟨.copy rec g todo, rel⟩ pick) := by
+  obtain ⟨h1, h2, h3, ℓ, hLG, hfen, hcells⟩ := hP
+  unfold wStep
+  simp only
+  split
+  · next hpick =>
+    have htodo := getElem?_min_none hpick
+    exact ⟨hL, ⟨h1, h2, h3, ℓ, hLG, fun c hc' => hcells c hc' (by rw [htodo]; simp)⟩, hrel⟩
+  · next c hpick =>
+    have hx : storeMsg log rel (.cell c) (rec[c]?.getD 0) .relaxed =
+        log ++ [⟨.cell c, rec[c]?.getD 0, rel⟩] := rfl
+    rw [hx]
+    have hL' : LogInv a ver gen cells0 (log ++ [⟨.cell c, rec[c]?.getD 0, rel⟩]) written := by
+      apply hL.snoc hc
+      · show rel ≤ log.length + 1; omega
+      · intro h; cases h
+      · intro c' _
+        exact ⟨ℓ, g, hLG, h3, hfen⟩
+    have hnew : ∀ c', c' < N → c' ∉ todo.filter (· != c) →
+        LastCell (log ++ [⟨.cell c, rec[c]?.getD 0, rel⟩]) c' (rec[c']?.getD 0) := by
+      intro c' hc' hn
+      by_cases hcc : c' = c
+      · subst hcc
+        exact LastCell.snoc_cell log (x := ⟨.cell c', rec[c']?.getD 0, rel⟩) rfl
+      · have : c' ∉ todo := by
+          intro hmem
+          apply hn
+          rw [List.mem_filter]
+          exact ⟨hmem, by simp [hcc]⟩
+        apply (hcells c' hc' this).snoc_ne
+        intro h; cases h; exact hcc rfl
+    have hLG' : LastGen (log ++ [⟨.cell c, rec[c]?.getD 0, rel⟩]) ℓ g :=
+      hLG.snoc_ne (by intro h; cases h)
+    refine ⟨hL', ?_, ?_⟩
+    · by_cases hr : (todo.filter (· != c)).isEmpty = true
+      · simp only [hr, if_true]
+        refine ⟨h1, h2, h3, ℓ, hLG', fun c' hc' => hnew c' hc' ?_⟩
+        rw [List.isEmpty_iff.1 hr]; simp
+      · simp only [hr]
+        exact ⟨h1, h2, h3, ℓ, hLG', hfen, hnew⟩
+    · rw [List.length_append]; show rel ≤ _; omega
+
+theorem wStep_store2 (hL : LogInv a ver gen cells0 log written) (hc : cells0.length = N)
+    (rel : Nat) (hrel : rel ≤ log.length) (rec : List Nat) (g : Nat)
+    (hP : WPcInv a log ⟨.store2 rec g, rel⟩ written) (pick : Nat) :
+    WStepGoal a ver gen cells0 written (wStep a log ⟨.store2 rec g, rel⟩ pick) := by
+  simp only [wStep, storeMsg, WStepGoal]
+  obtain ⟨h1, h2, h3, ℓ, hLG, hcells⟩ := hP
+  have hg := hL.lastGen_lt hLG
+  obtain ⟨f1, f2, f3, f4⟩ := genFinish_facts hg h3
+  refine ⟨?_, trivial, ?_⟩
+  · apply hL.snoc hc
+    · show (if a.wStore2.isRel = true then log.length + 1 else rel) ≤ log.length + 1
+      split <;> omega
+    · intro _ ℓ' v' hLG'
+      obtain ⟨_, rfl⟩ := hLG.unique hLG'
+      refine ⟨f1, f2, ?_, ?_, ?_⟩
+      · intro ha _
+        obtain ⟨hr, _⟩ := (Ann.adequate_iff a).1 ha
+        show log.length + 1 ≤ (if a.wStore2.isRel = true then log.length + 1 else rel)
+        rw [if_pos hr]; exact Nat.le_refl _
+      · show phi (genFinish g) = (phi g + if genFinish g % 2 = 0 then 1 else 0) % 32767
+        rw [if_pos f3, f4]
+      · intro _
+        rw [pubCells_eq_of_LastCell h2 hcells]; exact h1
+    · intro c h; cases h
+  · rw [List.length_append]; show rel ≤ _; omega
+
+theorem wStep_inv (hL : LogInv a ver gen cells0 log written) (hc : cells0.length = N)
+    (w : Writer) (hrel : w.relFence ≤ log.length) (hP : WPcInv a log w written) (pick : Nat) :
+    WStepGoal a ver gen cells0 written (wStep a log w pick) := by
+  obtain ⟨pc, rel⟩ := w
+  cases pc with
+  | idle => exact ⟨hL, trivial, hrel⟩
+  | newVersion => exact wStep_newVersion hL hc rel hrel pick
+  | loadGen rec => exact wStep_loadGen hL rel hrel rec hP pick
+  | store1 rec g => exact wStep_store1 hL hc rel hrel rec g hP pick
+  | fence rec g => exact wStep_fence hL rel hrel rec g hP pick
+  | copy rec g todo => exact wStep_copy hL hc rel hrel rec g todo hP pick
+  | store2 rec g => exact wStep_store2 hL hc rel hrel rec g hP pick
+
+end wstep2
+
+/-! ### the reader invariant -/
+
+structure ViewInv (log : Log) (v : View) : Prop where
+  cur : v.cur ≤ log.length
+  acq : v.acq ≤ log.length
+  coh : ∀ x, v.cohOf x = 0 ∨ ∃ m, log[v.cohOf x]? = some m ∧ m.loc = x
+
+theorem ViewInv.empty (log : Log) : ViewInv log {} :=
+  ⟨Nat.zero_le _, Nat.zero_le _, fun _ => Or.inl rfl⟩
+
+theorem ViewInv.append {log : Log} {v : View} (h : ViewInv log v) (l : Log) : ViewInv (log ++ l) v := by
+  refine ⟨?_, ?_, fun x => ?_⟩
+  · rw [List.length_append]; exact Nat.le_trans h.cur (Nat.le_add_right _ _)
+  · rw [List.length_append]; exact Nat.le_trans h.acq (Nat.le_add_right _ _)
+  · rcases h.coh x with h0 | ⟨m, hm, hl⟩
+    · exact Or.inl h0
+    · exact Or.inr ⟨m, getElem?_append_some hm, hl⟩
+
+theorem ViewInv.viewOk {log : Log} {v : View} (h : ViewInv log v) : ViewOk log v := by
+  refine ⟨h.cur, h.acq, fun x j hj => ?_⟩
+  have hL := lastBefore_eq_some_iff.1 hj
+  rcases h.coh x with h0 | ⟨m, hm, hl⟩
+  · omega
+  · exact LastAt_le hL (lt_length_of_getElem? hm) hm hl
+
+theorem admissible_ne_nil {log : Log} {v : View} {x : Loc} (hV : ViewInv log v)
+    {k : Nat} {m : Msg} (hm : log[k]? = some m) (hx : m.loc = x) : admissible log v x ≠ [] := by
+  obtain ⟨jl, hjl, _⟩ := lastBefore_exists (lt_length_of_getElem? hm) hm hx
+  have hL := lastBefore_eq_some_iff.1 hjl
+  have hmem : jl ∈ admissible log v x := by
+    rw [mem_admissible]
+    refine ⟨hL.1, ?_, ?_, isLoc_iff.2 hL.2.1⟩
+    · exact hV.viewOk.2.2 x jl hjl
+    · cases hc : lastBefore log x v.cur with
+      | none => exact Nat.zero_le _
+      | some j' =>
+        have hL' := lastBefore_eq_some_iff.1 hc
+        obtain ⟨m', hm', hl'⟩ := hL'.2.1
+        exact LastAt_le hL (lt_length_of_getElem? hm') hm' hl'
+  intro h; rw [h] at hmem; cases hmem
+
+theorem load_of_nil {log : Log} {v : View} {x : Loc} (ord : Ord) (pick : Nat)
+    (h : admissible log v x = []) : load log v x ord pick = (0, 0, v) := by
+  unfold load; simp [h]
+
+theorem loadView_inv {log : Log} {v : View} {x : Loc} (hV : ViewInv log v) (ord : Ord) {j : Nat} {m : Msg}
+    (hm : log[j]? = some m) (hx : m.loc = x) (hcar : m.carried ≤ log.length) :
+    ViewInv log (loadView v x ord j m.carried) := by
+  refine ⟨loadView_cur_le _ _ _ _ _ _ hV.cur hcar, ?_, fun y => ?_⟩
+  · rw [loadView_acq]; exact Nat.max_le.2 ⟨hV.acq, hcar⟩
+  · by_cases hy : y = x
+    · subst hy; rw [loadView_cohOf_same]; exact Or.inr ⟨m, hm, hx⟩
+    · rw [loadView_cohOf_ne _ _ _ _ hy]; exact hV.coh y
+
+/-- facts about any load, whether or not a message was available -/
+theorem load_view {log : Log} {v : View} (hV : ViewInv log v)
+    (hcar : ∀ (i : Nat) (m : Msg), log[i]? = some m → m.carried ≤ log.length)
+    (x : Loc) (ord : Ord) (pick : Nat) :
+    ViewInv log (load log v x ord pick).2.2 ∧
+      (∀ y, v.cohOf y ≤ (load log v x ord pick).2.2.cohOf y) := by
+  by_cases hne : admissible log v x = []
+  · rw [load_of_nil ord pick hne]; exact ⟨hV, fun _ => Nat.le_refl _⟩
+  · obtain ⟨j, m, hj, hm, heq⟩ := load_spec log v x ord pick hne
+    rw [heq]
+    obtain ⟨_, h2, _, h4⟩ := mem_admissible.1 hj
+    obtain ⟨m', hm', hl'⟩ := isLoc_iff.1 h4
+    rw [hm] at hm'; cases hm'
+    refine ⟨loadView_inv hV ord hm hl' (hcar j m hm), fun y => ?_⟩
+    by_cases hy : y = x
+    · subst hy; show _ ≤ (loadView v y ord j m.carried).cohOf y
+      rw [loadView_cohOf_same]; exact h2
+    · show _ ≤ (loadView v x ord j m.carried).cohOf y
+      rw [loadView_cohOf_ne _ _ _ _ hy]; exact Nat.le_refl _
+
+def AttemptInv (log : Log) (v : View) (g1Idx acceptedIdx g1 : Nat) : Prop :=
+  (∃ m, log[g1Idx]? = some m ∧ m.loc = .gen ∧ m.val = g1) ∧ g1 % 2 = 0 ∧ g1 ≠ 0 ∧
+  g1Idx + 1 ≤ v.cur ∧ acceptedIdx ≤ g1Idx ∧ g1Idx ≤ v.cohOf .gen
+
+def CellRead (log : Log) (g1Idx bound : Nat) (got : List (Nat × Nat)) (c : Nat) : Prop :=
+  ∃ (j : Nat) (m : Msg), log[j]? = some m ∧ m.loc = .cell c ∧
+    ((got.find? (fun p => p.1 == c)).map (·.2)).getD 0 = m.val ∧ m.carried ≤ bound ∧
+    ∀ (k : Nat) (mk : Msg), j < k → k < g1Idx + 1 → log[k]? = some mk → mk.loc ≠ .cell c
+
+def RPcInv (log : Log) (v : View) (g1Idx acceptedIdx : Nat) : RPc → Prop
+  | .idle | .version | .gen1 => True
+  | .copy g1 _ todo got => AttemptInv log v g1Idx acceptedIdx g1 ∧ (∀ c ∈ todo, c < N) ∧
+      ∀ c, c < N → c ∉ todo → CellRead log g1Idx v.acq got c
+  | .fence g1 _ got => AttemptInv log v g1Idx acceptedIdx g1 ∧ ∀ c, c < N → CellRead log g1Idx v.acq got c
+  | .gen2 g1 _ got => AttemptInv log v g1Idx acceptedIdx g1 ∧ ∀ c, c < N → CellRead log g1Idx v.cur got c
+
+structure RInv (log : Log) (r : Reader) : Prop where
+  view : ViewInv log r.view
+  accCoh : r.acceptedIdx ≤ r.view.cohOf .gen
+  pc : RPcInv log r.view r.g1Idx r.acceptedIdx r.pc
+
+theorem adm_no_later {log : Log} {v : View} {x : Loc} {j : Nat} (hj : j ∈ admissible log v x) :
+    ∀ (k : Nat) (mk : Msg), j < k → k < v.cur → log[k]? = some mk → mk.loc ≠ x := by
+  intro k mk hjk hk hmk hx
+  obtain ⟨j', hj', hkj'⟩ := lastBefore_exists hk hmk hx
+  have := (mem_admissible.1 hj).2.2.1
+  rw [hj'] at this
+  simp only [Option.getD_some] at this
+  omega
+
+theorem load_spec' {log : Log} {v : View} {x : Loc} (hV : ViewInv log v) {k0 : Nat} {m0 : Msg}
+    (hm0 : log[k0]? = some m0) (hx0 : m0.loc = x) (ord : Ord) (pick : Nat) :
+    ∃ (j : Nat) (m : Msg), log[j]? = some m ∧ m.loc = x ∧ v.cohOf x ≤ j ∧
+      (∀ (k : Nat) (mk : Msg), j < k → k < v.cur → log[k]? = some mk → mk.loc ≠ x) ∧
+      load log v x ord pick = (m.val, j, loadView v x ord j m.carried) := by
+  obtain ⟨j, m, hj, hm, heq⟩ := load_spec log v x ord pick (admissible_ne_nil hV hm0 hx0)
+  obtain ⟨_, h2, _, h4⟩ := mem_admissible.1 hj
+  obtain ⟨m', hm', hl'⟩ := isLoc_iff.1 h4
+  rw [hm] at hm'; cases hm'
+  exact ⟨j, m, hm, hl', h2, adm_no_later hj, heq⟩
+
+theorem loadView_relaxed (v : View) (x : Loc) (j c : Nat) :
+    loadView v x .relaxed j c = ⟨v.cur, max v.acq c, (v.setCoh x j).coh⟩ := rfl
+
+theorem fenceAcq_of_acq (v : View) {o : Ord} (h : o.isAcq = true) :
+    fenceAcq v o = ⟨max v.cur v.acq, v.acq, v.coh⟩ := by
+  unfold fenceAcq; rw [if_pos h]
+
+theorem CellRead.mono {log : Log} {gi b b' : Nat} {got : List (Nat × Nat)} {c : Nat}
+    (h : CellRead log gi b got c) (hb : b ≤ b') : CellRead log gi b' got c := by
+  obtain ⟨j, m, h1, h2, h3, h4, h5⟩ := h
+  exact ⟨j, m, h1, h2, h3, Nat.le_trans h4 hb, h5⟩
+
+section rstep
+variable {a : Ann} {ver gen : Nat} {cells0 : List Nat} {log : Log} {written : List (List Nat)}
+
+theorem LogInv.gen_idx_ge (hL : LogInv a ver gen cells0 log written) (hc : cells0.length = N)
+    {i : Nat} {m : Msg} (hm : log[i]? = some m) (hl : m.loc = .gen) : N + 1 ≤ i := by
+  by_cases hi : N + 1 ≤ i
+  · exact hi
+  · obtain ⟨_, _, f3, _, _, _⟩ := initBlock_facts ver gen hc
+    have hlen : (initBlock ver gen cells0).length = N + 2 := by rw [initBlock_length, hc]
+    have hi' : i < (initBlock ver gen cells0).length := by omega
+    have h1 := hL.pre i _ (List.getElem?_eq_getElem hi')
+    rw [hm] at h1; cases h1
+    have := (f3 i _ (List.getElem?_eq_getElem hi') hl).1
+    omega
+
+theorem LogInv.cell_exists (hL : LogInv a ver gen cells0 log written) (hc : cells0.length = N)
+    {c : Nat} (hcN : c < N) : ∃ m, log[c]? = some m ∧ m.loc = .cell c := by
+  obtain ⟨f1, _⟩ := initBlock_facts ver gen hc
+  obtain ⟨m, hm, hl⟩ := f1 c hcN
+  exact ⟨m, hL.pre c m hm, hl⟩
+
+theorem rStep_version (hL : LogInv a ver gen cells0 log written)
+    (view : View) (cg : Nat) (cache : List Nat) (gi ai : Nat)
+    (hR : RInv log ⟨.version, view, cg, cache, gi, ai⟩) (pc pm : Nat) :
+    RInv log (rStep a log ⟨.version, view, cg, cache, gi, ai⟩ pc pm).1 := by
+  simp only [rStep]
+  obtain ⟨hV, hacc, _⟩ := hR
+  have hlv := load_view hV hL.carLe .version a.rVersion pm
+  split
+  · exact ⟨hlv.1, Nat.le_trans hacc (hlv.2 .gen), trivial⟩
+  · exact ⟨hlv.1, Nat.le_trans hacc (hlv.2 .gen), trivial⟩
+
+theorem rStep_gen1 (hL : LogInv a ver gen cells0 log written) (ha : a.adequate = true)
+    (view : View) (cg : Nat) (cache : List Nat) (gi ai : Nat)
+    (hR : RInv log ⟨.gen1, view, cg, cache, gi, ai⟩) (pc pm : Nat) :
+    RInv log (rStep a log ⟨.gen1, view, cg, cache, gi, ai⟩ pc pm).1 := by
+  simp only [rStep]
+  obtain ⟨hV, hacc, _⟩ := hR
+  dsimp only at hV hacc
+  have hlv := load_view hV hL.carLe .gen a.rGen1 pm
+  split
+  · exact ⟨hlv.1, Nat.le_trans hacc (hlv.2 .gen), trivial⟩
+  · next hcond =>
+    obtain ⟨ℓ, v, ⟨mℓ, hmℓ, hlℓ, _⟩, _⟩ := hL.lastGen
+    obtain ⟨j, m, hm, hl, hcoh, _, heq⟩ := load_spec' hV hmℓ hlℓ a.rGen1 pm
+    simp only [heq] at hcond hlv ⊢
+    obtain ⟨_, _, hacq, _⟩ := (Ann.adequate_iff a).1 ha
+    have hacc' : ai ≤ view.cohOf .gen := hacc
+    have hcar : j + 1 ≤ m.carried := hL.genCar ha j m hm hl (by omega)
+    refine ⟨hlv.1, ?_, ?_⟩
+    · show ai ≤ (loadView view .gen a.rGen1 j m.carried).cohOf .gen
+      rw [loadView_cohOf_same]; omega
+    · refine ⟨⟨⟨m, hm, hl, rfl⟩, by omega, by omega, ?_, by show ai ≤ j; omega, ?_⟩, ?_, ?_⟩
+      · show j + 1 ≤ (loadView view .gen a.rGen1 j m.carried).cur
+        rw [loadView_cur_acq _ _ _ _ _ hacq]; omega
+      · show j ≤ (loadView view .gen a.rGen1 j m.carried).cohOf .gen
+        rw [loadView_cohOf_same]; exact Nat.le_refl _
+      · intro c hc'; exact List.mem_range.1 hc'
+      · intro c hc' hn; exact absurd (List.mem_range.2 hc') hn
+
+theorem afterCopy_adequate (ha : a.adequate = true) (g1 retries : Nat) (got : List (Nat × Nat)) :
+    afterCopy a g1 retries got = .fence g1 retries got := by
+  obtain ⟨_, _, _, _, o, ho, _⟩ := (Ann.adequate_iff a).1 ha
+  unfold afterCopy; rw [ho]
+
+theorem rStep_copy (hL : LogInv a ver gen cells0 log written) (hc : cells0.length = N) (ha : a.adequate = true)
+    (view : View) (cg : Nat) (cache : List Nat) (gi ai : Nat) (g1 retries : Nat) (todo : List Nat)
+    (got : List (Nat × Nat))
+    (hR : RInv log ⟨.copy g1 retries todo got, view, cg, cache, gi, ai⟩) (pc pm : Nat) :
+    RInv log (rStep a log ⟨.copy g1 retries todo got, view, cg, cache, gi, ai⟩ pc pm).1 := by
+  simp only [rStep]
+  obtain ⟨hV, hacc, hA, htodo, hcells⟩ := hR
+  dsimp only at hV hacc hA htodo hcells
+  split
+  · next hpick =>
+    have hnil := getElem?_min_none hpick
+    simp only [afterCopy_adequate ha]
+    exact ⟨hV, hacc, hA, fun c hc' => hcells c hc' (by rw [hnil]; simp)⟩
+  · next c hpick =>
+    have hcmem : c ∈ todo := List.mem_of_getElem? hpick
+    have hcN : c < N := htodo c hcmem
+    obtain ⟨m0, hm0, hl0⟩ := hL.cell_exists hc hcN
+    obtain ⟨j, m, hm, hl, hcoh, hadm, heq⟩ := load_spec' hV hm0 hl0 .relaxed pm
+    have hlv := load_view hV hL.carLe (.cell c) .relaxed pm
+    simp only [heq] at hlv ⊢
+    rw [loadView_relaxed] at hlv ⊢
+    have hcohg : (View.mk view.cur (max view.acq m.carried) (view.setCoh (.cell c) j).coh).cohOf .gen
+        = view.cohOf .gen := cohOf_setCoh_ne view j (by intro h; cases h)
+    obtain ⟨hA1, hA2, hA3, hA4, hA5, hA6⟩ := hA
+    have hA' : AttemptInv log (View.mk view.cur (max view.acq m.carried) (view.setCoh (.cell c) j).coh) gi ai g1 :=
+      ⟨hA1, hA2, hA3, hA4, hA5, by rw [hcohg]; exact hA6⟩
+    have hnew : ∀ c', c' < N → c' ∉ todo.filter (· != c) →
+        CellRead log gi (max view.acq m.carried) ((c, m.val) :: got) c' := by
+      intro c' hc' hn
+      by_cases hcc : c' = c
+      · subst hcc
+        refine ⟨j, m, hm, hl, by simp, Nat.le_max_right _ _, fun k mk hk1 hk2 hmk => ?_⟩
+        exact hadm k mk hk1 (by omega) hmk
+      · have hnt : c' ∉ todo := by
+          intro hmem; apply hn; rw [List.mem_filter]; exact ⟨hmem, by simp [hcc]⟩
+        obtain ⟨j', m', h1, h2, h3, h4, h5⟩ := hcells c' hc' hnt
+        refine ⟨j', m', h1, h2, ?_, Nat.le_trans h4 (Nat.le_max_left _ _), h5⟩
+        have : (c == c') = false := by simp; exact fun h => hcc h.symm
+        rw [List.find?_cons]; simp only [this]; exact h3
+    refine ⟨hlv.1, ?_, ?_⟩
+    · show ai ≤ _; rw [hcohg]; exact hacc
+    · by_cases hr : (todo.filter (· != c)).isEmpty = true
+      · simp only [hr, if_true, afterCopy_adequate ha]
+        refine ⟨hA', fun c' hc' => hnew c' hc' ?_⟩
+        rw [List.isEmpty_iff.1 hr]; simp
+      · simp only [hr]
+        refine ⟨hA', fun c' hc' => htodo c' (List.mem_filter.1 hc').1, hnew⟩
+
+theorem rStep_fence (ha : a.adequate = true)
+    (view : View) (cg : Nat) (cache : List Nat) (gi ai : Nat) (g1 retries : Nat)
+    (got : List (Nat × Nat))
+    (hR : RInv log ⟨.fence g1 retries got, view, cg, cache, gi, ai⟩) (pc pm : Nat) :
+    RInv log (rStep a log ⟨.fence g1 retries got, view, cg, cache, gi, ai⟩ pc pm).1 := by
+  simp only [rStep]
+  obtain ⟨hV, hacc, ⟨hA1, hA2, hA3, hA4, hA5, hA6⟩, hcells⟩ := hR
+  dsimp only at hV hacc hA1 hA4 hA5 hA6 hcells
+  obtain ⟨_, _, _, _, o, ho, hoa⟩ := (Ann.adequate_iff a).1 ha
+  simp only [ho, Option.getD_some, fenceAcq_of_acq view hoa]
+  refine ⟨⟨Nat.max_le.2 ⟨hV.cur, hV.acq⟩, hV.acq, hV.coh⟩, hacc, ⟨hA1, hA2, hA3, ?_, hA5, hA6⟩, ?_⟩
+  · show gi + 1 ≤ max view.cur view.acq
+    have : gi + 1 ≤ view.cur := hA4
+    omega
+  · intro c hc'
+    exact (hcells c hc').mono (Nat.le_max_right _ _)
+
+theorem rStep_gen2 (hL : LogInv a ver gen cells0 log written) (hc : cells0.length = N) (ha : a.adequate = true)
+    (view : View) (cg : Nat) (cache : List Nat) (gi ai : Nat) (g1 retries : Nat)
+    (got : List (Nat × Nat))
+    (hR : RInv log ⟨.gen2 g1 retries got, view, cg, cache, gi, ai⟩) (pc pm : Nat) :
+    RInv log (rStep a log ⟨.gen2 g1 retries got, view, cg, cache, gi, ai⟩ pc pm).1 := by
+  simp only [rStep]
+  obtain ⟨hV, hacc, ⟨⟨mg, hmg, hlg, hvg⟩, hA2, hA3, hA4, hA5, hA6⟩, hcells⟩ := hR
+  dsimp only at hV hacc hmg hA4 hA5 hA6 hcells
+  have hlv := load_view hV hL.carLe .gen a.rGen2 pm
+  obtain ⟨j, m, hm, hl, hcoh, _, heq⟩ := load_spec' hV hmg hlg a.rGen2 pm
+  simp only [heq] at hlv ⊢
+  obtain ⟨_, _, _, hacq, _⟩ := (Ann.adequate_iff a).1 ha
+  have hacc' : ai ≤ view.cohOf .gen := hacc
+  have hA4' : gi + 1 ≤ view.cur := hA4
+  have hA6' : gi ≤ view.cohOf .gen := hA6
+  have hcoh' : (loadView view .gen a.rGen2 j m.carried).cohOf .gen = j := loadView_cohOf_same _ _ _ _ _
+  have hcur' : (loadView view .gen a.rGen2 j m.carried).cur = max view.cur m.carried :=
+    loadView_cur_acq _ _ _ _ _ hacq
+  split
+  · exact ⟨hlv.1, by show gi ≤ _; rw [hcoh']; omega, trivial⟩
+  · next hne =>
+    split
+    · exact ⟨hlv.1, by show ai ≤ _; rw [hcoh']; omega, trivial⟩
+    · refine ⟨hlv.1, by show ai ≤ _; rw [hcoh']; omega, ?_, ?_, ?_⟩
+      · by_cases he : m.val % 2 = 0
+        · simp only [he, if_true]
+          have hjgi : j ≠ gi := by
+            rintro rfl
+            rw [hmg] at hm; cases hm
+            exact hne hvg.symm
+          have hgi := hL.gen_idx_ge hc hmg hlg
+          have hnz : m.val ≠ 0 := hL.genNz j m hm hl (by omega)
+          have hcar : j + 1 ≤ m.carried := hL.genCar ha j m hm hl he
+          refine ⟨⟨m, hm, hl, rfl⟩, he, hnz, ?_, by omega, ?_⟩
+          · rw [hcur']; omega
+          · rw [hcoh']; exact Nat.le_refl _
+        · simp only [he, if_false]
+          refine ⟨⟨mg, hmg, hlg, hvg⟩, hA2, hA3, ?_, hA5, ?_⟩
+          · rw [hcur']; omega
+          · rw [hcoh']; omega
+      · intro c hc'; exact List.mem_range.1 hc'
+      · intro c hc' hn; exact absurd (List.mem_range.2 hc') hn
+
+theorem rStep_inv (hL : LogInv a ver gen cells0 log written) (hc : cells0.length = N) (ha : a.adequate = true)
+    (r : Reader) (hR : RInv log r) (pc pm : Nat) : RInv log (rStep a log r pc pm).1 := by
+  obtain ⟨rpc, view, cg, cache, gi, ai⟩ := r
+  cases rpc with
+  | idle => exact hR
+  | version => exact rStep_version hL view cg cache gi ai hR pc pm
+  | gen1 => exact rStep_gen1 hL ha view cg cache gi ai hR pc pm
+  | copy g1 retries todo got => exact rStep_copy hL hc ha view cg cache gi ai g1 retries todo got hR pc pm
+  | fence g1 retries got => exact rStep_fence ha view cg cache gi ai g1 retries got hR pc pm
+  | gen2 g1 retries got => exact rStep_gen2 hL hc ha view cg cache gi ai g1 retries got hR pc pm
+
+end rstep
+
+/-! ### stability of the reader invariant when the log grows -/
+
+theorem CellRead.append {log : Log} {gi b : Nat} {got : List (Nat × Nat)} {c : Nat}
+    (h : CellRead log gi b got c) (hgi : gi < log.length) (l : Log) : CellRead (log ++ l) gi b got c := by
+  obtain ⟨j, m, h1, h2, h3, h4, h5⟩ := h
+  refine ⟨j, m, getElem?_append_some h1, h2, h3, h4, fun k mk hk1 hk2 hmk => ?_⟩
+  rw [List.getElem?_append_left (by omega)] at hmk
+  exact h5 k mk hk1 hk2 hmk
+
+theorem AttemptInv.append {log : Log} {v : View} {gi ai g1 : Nat} (h : AttemptInv log v gi ai g1) (l : Log) :
+    AttemptInv (log ++ l) v gi ai g1 := by
+  obtain ⟨⟨m, hm, hl, hv⟩, h2⟩ := h
+  exact ⟨⟨m, getElem?_append_some hm, hl, hv⟩, h2⟩
+
+theorem AttemptInv.lt {log : Log} {v : View} {gi ai g1 : Nat} (h : AttemptInv log v gi ai g1) :
+    gi < log.length := by
+  obtain ⟨⟨m, hm, _, _⟩, _⟩ := h; exact lt_length_of_getElem? hm
+
+theorem RInv.append {log : Log} {r : Reader} (h : RInv log r) (l : Log) : RInv (log ++ l) r := by
+  obtain ⟨rpc, view, cg, cache, gi, ai⟩ := r
+  obtain ⟨hV, hacc, hP⟩ := h
+  refine ⟨hV.append l, hacc, ?_⟩
+  dsimp only at hP ⊢
+  cases rpc with
+  | idle => trivial
+  | version => trivial
+  | gen1 => trivial
+  | copy g1 retries todo got =>
+    obtain ⟨hA, h1, h2⟩ := hP
+    exact ⟨hA.append l, h1, fun c hc hn => (h2 c hc hn).append hA.lt l⟩
+  | fence g1 retries got =>
+    obtain ⟨hA, h2⟩ := hP
+    exact ⟨hA.append l, fun c hc => (h2 c hc).append hA.lt l⟩
+  | gen2 g1 retries got =>
+    obtain ⟨hA, h2⟩ := hP
+    exact ⟨hA.append l, fun c hc => (h2 c hc).append hA.lt l⟩
+
+theorem wStep_log (a : Ann) (log : Log) (w : Writer) (pick : Nat) :
+    ∃ l, (wStep a log w pick).1 = log ++ l := by
+  obtain ⟨pc, rel⟩ := w
+  cases pc with
+  | idle => exact ⟨[], by simp [wStep]⟩
+  | newVersion => exact ⟨_, rfl⟩
+  | loadGen rec => exact ⟨[], by simp [wStep]⟩
+  | store1 rec g => exact ⟨_, rfl⟩
+  | fence rec g => exact ⟨[], by simp [wStep]⟩
+  | copy rec g todo =>
+    unfold wStep
+    simp only
+    split
+    · exact ⟨[], by simp⟩
+    · exact ⟨_, rfl⟩
+  | store2 rec g => exact ⟨_, rfl⟩
+
+/-! ### the global invariant -/
+
+structure Inv (a : Ann) (ver gen : Nat) (cells0 : List Nat) (s : Sys) : Prop where
+  log : LogInv a ver gen cells0 s.log s.written
+  wpc : WPcInv a s.log s.w s.written
+  rel : s.w.relFence ≤ s.log.length
+  rd : a.adequate = true → RInv s.log s.r
+
+theorem RInv.empty (log : Log) : RInv log {} := ⟨ViewInv.empty log, Nat.zero_le _, trivial⟩
+
+theorem Inv.init (a : Ann) (ver gen : Nat) {cells0 : List Nat} (hc : cells0.length = N) (hg : gen < 65536) :
+    Inv a ver gen cells0 (Sys.init ver gen cells0) :=
+  ⟨LogInv.init a ver gen hc hg, trivial, Nat.zero_le _, fun _ => RInv.empty _⟩
+
+theorem Inv.step {a : Ann} {ver gen : Nat} {cells0 : List Nat} (hc : cells0.length = N) {s t : Sys}
+    (h : Inv a ver gen cells0 s) (hst : Step a s t) : Inv a ver gen cells0 t := by
+  cases hst with
+  | wNew hidle => exact ⟨h.log, trivial, Nat.zero_le _, h.rd⟩
+  | wWrite rec hidle hl =>
+    exact ⟨h.log.mono_written (fun r hr => List.mem_cons_of_mem _ hr), ⟨List.mem_cons_self, hl⟩, h.rel, h.rd⟩
+  | wStep pick hne =>
+    obtain ⟨h1, h2, h3⟩ := wStep_inv h.log hc s.w h.rel h.wpc pick
+    obtain ⟨l, hl⟩ := wStep_log a s.log s.w pick
+    refine ⟨h1, h2, h3, fun ha => ?_⟩
+    show RInv (wStep a s.log s.w pick).1 s.r
+    rw [hl]; exact (h.rd ha).append l
+  | wKill => exact ⟨h.log, trivial, Nat.zero_le _, h.rd⟩
+  | rOpen hidle => exact ⟨h.log, h.wpc, h.rel, fun _ => RInv.empty _⟩
+  | rCall hidle =>
+    refine ⟨h.log, h.wpc, h.rel, fun ha => ?_⟩
+    obtain ⟨hV, hacc, _⟩ := h.rd ha
+    exact ⟨hV, hacc, trivial⟩
+  | rStep pc pm hne =>
+    exact ⟨h.log, h.wpc, h.rel, fun ha => rStep_inv h.log hc ha s.r (h.rd ha) pc pm⟩
+
+theorem reachable_inv {a : Ann} {ver gen : Nat} {cells0 : List Nat} (hc : cells0.length = N) (hg : gen < 65536)
+    {s : Sys} (hr : Reachable a (Sys.init ver gen cells0) s) : Inv a ver gen cells0 s := by
+  induction hr with
+  | refl => exact Inv.init a ver gen hc hg
+  | step _ hst ih => exact ih.step hc hst
+
+/-! ### the potential argument -/
+
+section pot
+variable {a : Ann} {ver gen : Nat} {cells0 : List Nat} {log : Log} {written : List (List Nat)}
+
+theorem LogInv.gen_pair (hL : LogInv a ver gen cells0 log written) (hc : cells0.length = N)
+    {i j : Nat} {mi mj : Msg} (hi : log[i]? = some mi) (hj : log[j]? = some mj) (hij : i ≤ j)
+    (hgi : mi.loc = .gen) (hgj : mj.loc = .gen) :
+    phi mj.val = (phi mi.val + evenGenBetween log i j) % 32767 := by
+  have h1 := hL.pot i mi hi hgi
+  have h2 := hL.pot j mj hj hgj
+  have h3 := eGB_add log (hL.gen_idx_ge hc hi hgi) hij
+  have := phi_lt gen
+  omega
+
+theorem LogInv.equal_even_gen (hL : LogInv a ver gen cells0 log written) (hc : cells0.length = N)
+    {i j : Nat} {mi mj : Msg} (hi : log[i]? = some mi) (hj : log[j]? = some mj) (hij : i ≤ j)
+    (hgi : mi.loc = .gen) (hgj : mj.loc = .gen) (hev : mi.val % 2 = 0) (heq : mi.val = mj.val)
+    (hfew : evenGenBetween log i j < 32767) : i = j := by
+  by_cases hlt : i < j
+  · exfalso
+    have hp := hL.gen_pair hc hi hj hij hgi hgj
+    obtain ⟨j', rfl⟩ : ∃ j', j = j' + 1 := ⟨j - 1, by omega⟩
+    have hEG : isEG log (j' + 1) = true := isEG_iff.2 ⟨mj, hj, hgj, by omega⟩
+    rw [eGB_succ, if_pos ⟨hlt, hEG⟩] at hp hfew
+    rw [heq] at hp
+    have := phi_lt mj.val
+    omega
+  · omega
+
+/-- the reader's acceptance argument -/
+theorem accept_core (hL : LogInv a ver gen cells0 log written) (hc : cells0.length = N) (ha : a.adequate = true)
+    {r : Reader} (hR : RInv log r) {g1 retries : Nat} {got : List (Nat × Nat)}
+    (hpc : r.pc = .gen2 g1 retries got) (pm : Nat)
+    (hacc : (load log r.view .gen a.rGen2 pm).1 = g1)
+    (hnowrap : evenGenBetween log r.g1Idx (load log r.view .gen a.rGen2 pm).2.1 < 32767) :
+    assemble got = pubCells log r.g1Idx ∧
+      ∃ m, log[r.g1Idx]? = some m ∧ m.loc = .gen ∧ m.val = g1 ∧ g1 % 2 = 0 ∧ g1 ≠ 0 := by
+  have hP := hR.pc
+  rw [hpc] at hP
+  obtain ⟨⟨⟨mg, hmg, hlg, hvg⟩, hA2, hA3, hA4, hA5, hA6⟩, hcells⟩ := hP
+  obtain ⟨j2, m2, hm2, hl2, hcoh2, hadm2, heq⟩ := load_spec' hR.view hmg hlg a.rGen2 pm
+  rw [heq] at hacc hnowrap
+  simp only at hacc hnowrap
+  have hgi := hL.gen_idx_ge hc hmg hlg
+  -- the re-check cannot have read a later message
+  have hno : ¬ r.g1Idx < j2 := by
+    intro hlt
+    have := hL.equal_even_gen hc hmg hm2 (by omega) hlg hl2 (by omega) (by omega) hnowrap
+    omega
+  refine ⟨?_, mg, hmg, hlg, hvg, hA2, hA3⟩
+  unfold assemble pubCells
+  apply List.map_congr_left
+  intro c hcm
+  have hcN := List.mem_range.1 hcm
+  obtain ⟨j, m, hm, hl, hfind, hcar, hlast⟩ := hcells c hcN
+  have hjne : j ≠ r.g1Idx := by
+    rintro rfl
+    rw [hmg] at hm; cases hm
+    rw [hlg] at hl; cases hl
+  have hjlt : j < r.g1Idx := by
+    by_cases hjlt : j < r.g1Idx
+    · exact hjlt
+    · exfalso
+      have hjgt : r.g1Idx < j := by omega
+      obtain ⟨o, mo, ho1, ho2, ho3, ho4, ho5, ho6⟩ := hL.cellOdd j m c (by omega) hm hl
+      have ho5' := ho5 ha
+      -- g1Idx lies at or before o
+      have h1 : r.g1Idx ≤ o := by
+        by_cases h1 : r.g1Idx ≤ o
+        · exact h1
+        · exact absurd hlg (ho6 r.g1Idx mg (by omega) hjgt hmg)
+      have h2 : r.g1Idx ≠ o := by
+        rintro rfl
+        rw [hmg] at ho2; cases ho2
+        omega
+      -- o is visible to the re-check
+      have h3 : o ≤ j2 := by
+        by_cases h3 : o ≤ j2
+        · exact h3
+        · exact absurd ho3 (hadm2 o mo (by omega) (by omega) ho2)
+      omega
+  have hlb : lastBefore log (.cell c) r.g1Idx = some j :=
+    lastBefore_eq_some_iff.2 ⟨hjlt, ⟨m, hm, hl⟩, fun k mk hk1 hk2 hmk => hlast k mk hk1 (by omega) hmk⟩
+  rw [hlb]
+  simp only [hm, Option.map_some, Option.getD_some]
+  exact hfind
+
+end pot
+
+/-! ### what is returned and cached -/
+
+def GoodRec (cells0 : List Nat) (written : List (List Nat)) (c : List Nat) : Prop :=
+  c = zerosN ∨ c = cells0 ∨ c ∈ written
+
+def CacheRel (log : Log) (r : Reader) : Prop :=
+  (r.cacheGen = 0 ∧ r.cache = zerosN) ∨
+  (r.cache = pubCells log r.acceptedIdx ∧
+    ∃ m, log[r.acceptedIdx]? = some m ∧ m.loc = .gen ∧ m.val = r.cacheGen)
+
+structure CInv (cells0 : List Nat) (s : Sys) : Prop where
+  ret : ∀ c ∈ s.returned, GoodRec cells0 s.written c
+  cache : GoodRec cells0 s.written s.r.cache
+  rel : CacheRel s.log s.r
+
+/-- no 16-bit wrap between the two generation reads of an attempt accepted in state `s` -/
+def NoWrapAt (a : Ann) (s : Sys) : Prop :=
+  ∀ g1 retries got pm, s.r.pc = .gen2 g1 retries got →
+    (load s.log s.r.view .gen a.rGen2 pm).1 = g1 →
+    evenGenBetween s.log s.r.g1Idx (load s.log s.r.view .gen a.rGen2 pm).2.1 < 32767
+
+theorem GoodRec.mono {cells0 : List Nat} {w w' : List (List Nat)} {c : List Nat}
+    (h : GoodRec cells0 w c) (hw : ∀ r, r ∈ w → r ∈ w') : GoodRec cells0 w' c :=
+  h.imp id (fun h => h.imp id (hw _))
+
+theorem CacheRel.append {log : Log} {r : Reader} (h : CacheRel log r) (l : Log) : CacheRel (log ++ l) r := by
+  rcases h with h | ⟨h1, m, hm, h2⟩
+  · exact Or.inl h
+  · refine Or.inr ⟨?_, m, getElem?_append_some hm, h2⟩
+    rw [pubCells_append (Nat.le_of_lt (lt_length_of_getElem? hm))]; exact h1
+
+/-- the effect of a reader access on the cache, the ghost index and the call result -/
+theorem rStep_cache_cases (a : Ann) (log : Log) (r : Reader) (pc pm : Nat) :
+    ((rStep a log r pc pm).1.cache = r.cache ∧ (rStep a log r pc pm).1.cacheGen = r.cacheGen ∧
+      (rStep a log r pc pm).1.acceptedIdx = r.acceptedIdx ∧
+      (returnedBy (rStep a log r pc pm).2.1 = none ∨ returnedBy (rStep a log r pc pm).2.1 = some r.cache)) ∨
+    (∃ g1 retries got, r.pc = .gen2 g1 retries got ∧ (load log r.view .gen a.rGen2 pm).1 = g1 ∧
+      (rStep a log r pc pm).1.cache = assemble got ∧ (rStep a log r pc pm).1.cacheGen = g1 ∧
+      (rStep a log r pc pm).1.acceptedIdx = r.g1Idx ∧
+      returnedBy (rStep a log r pc pm).2.1 = some (assemble got)) := by
+  obtain ⟨rpc, view, cg, cache, gi, ai⟩ := r
+  cases rpc with
+  | idle => left; simp [rStep, returnedBy]
+  | version =>
+    left; simp only [rStep]
+    split <;> simp [returnedBy]
+  | gen1 =>
+    left; simp only [rStep]
+    split <;> simp [returnedBy]
+  | copy g1 retries todo got =>
+    left; simp only [rStep]
+    split <;> simp [returnedBy]
+  | fence g1 retries got => left; simp [rStep, returnedBy]
+  | gen2 g1 retries got =>
+    by_cases hacc : g1 = (load log view .gen a.rGen2 pm).1
+    · right
+      refine ⟨g1, retries, got, rfl, hacc.symm, ?_⟩
+      simp only [rStep]
+      rw [if_pos hacc]
+      simp [returnedBy]
+    · left
+      simp only [rStep]
+      rw [if_neg hacc]
+      split <;> simp [returnedBy]
+
+theorem step_log_append {a : Ann} {s t : Sys} (hst : Step a s t) : ∃ l, t.log = s.log ++ l := by
+  cases hst with
+  | wNew hidle => exact ⟨[], by simp⟩
+  | wWrite rec hidle hl => exact ⟨[], by simp⟩
+  | wStep pick hne => exact wStep_log a s.log s.w pick
+  | wKill => exact ⟨[], by simp⟩
+  | rOpen hidle => exact ⟨[], by simp⟩
+  | rCall hidle => exact ⟨[], by simp⟩
+  | rStep pc pm hne => exact ⟨[], by simp⟩
+
+theorem CInv.init (ver gen : Nat) (cells0 : List Nat) : CInv cells0 (Sys.init ver gen cells0) :=
+  ⟨fun c hc => (by cases hc), Or.inl rfl, Or.inl ⟨rfl, rfl⟩⟩
+
+theorem CInv.step {a : Ann} {ver gen : Nat} {cells0 : List Nat} (hc : cells0.length = N)
+    (ha : a.adequate = true) {s t : Sys} (hI : Inv a ver gen cells0 s) (h : CInv cells0 s)
+    (hnw : NoWrapAt a s) (hst : Step a s t) : CInv cells0 t := by
+  cases hst with
+  | wNew hidle => exact ⟨h.ret, h.cache, h.rel⟩
+  | wWrite rec hidle hl =>
+    have hw : ∀ r, r ∈ s.written → r ∈ rec :: s.written := fun r hr => List.mem_cons_of_mem _ hr
+    exact ⟨fun c hc => (h.ret c hc).mono hw, h.cache.mono hw, h.rel⟩
+  | wStep pick hne =>
+    obtain ⟨l, hl⟩ := wStep_log a s.log s.w pick
+    refine ⟨h.ret, h.cache, ?_⟩
+    show CacheRel (wStep a s.log s.w pick).1 s.r
+    rw [hl]; exact h.rel.append l
+  | wKill => exact ⟨h.ret, h.cache, h.rel⟩
+  | rOpen hidle => exact ⟨h.ret, Or.inl rfl, Or.inl ⟨rfl, rfl⟩⟩
+  | rCall hidle => exact ⟨h.ret, h.cache, h.rel⟩
+  | rStep pc pm hne =>
+    rcases rStep_cache_cases a s.log s.r pc pm with ⟨h1, h2, h3, h4⟩ | ⟨g1, retries, got, hpc, hacc, h1, h2, h3, h4⟩
+    · refine ⟨?_, ?_, ?_⟩
+      · show ∀ c ∈ (match returnedBy (rStep a s.log s.r pc pm).2.1 with
+            | some c => c :: s.returned
+            | none => s.returned), GoodRec cells0 s.written c
+        rcases h4 with h4 | h4 <;> rw [h4] <;> simp only
+        · exact h.ret
+        · intro c hc'
+          rcases List.mem_cons.1 hc' with rfl | hc'
+          · exact h.cache
+          · exact h.ret c hc'
+      · show GoodRec cells0 s.written (rStep a s.log s.r pc pm).1.cache
+        rw [h1]; exact h.cache
+      · show CacheRel s.log (rStep a s.log s.r pc pm).1
+        unfold CacheRel
+        rw [h1, h2, h3]; exact h.rel
+    · obtain ⟨hass, m, hm, hlg, hv, hev, hnz⟩ :=
+        accept_core hI.log hc ha (hI.rd ha) hpc pm hacc (hnw g1 retries got pm hpc hacc)
+      have hgood : GoodRec cells0 s.written (assemble got) := by
+        rw [hass]
+        right
+        exact hI.log.pub s.r.g1Idx m hm hlg (by rw [hv]; exact hev) (by rw [hv]; exact hnz)
+      refine ⟨?_, ?_, ?_⟩
+      · show ∀ c ∈ (match returnedBy (rStep a s.log s.r pc pm).2.1 with
+            | some c => c :: s.returned
+            | none => s.returned), GoodRec cells0 s.written c
+        rw [h4]; simp only
+        intro c hc'
+        rcases List.mem_cons.1 hc' with rfl | hc'
+        · exact hgood
+        · exact h.ret c hc'
+      · show GoodRec cells0 s.written (rStep a s.log s.r pc pm).1.cache
+        rw [h1]; exact hgood
+      · show CacheRel s.log (rStep a s.log s.r pc pm).1
+        unfold CacheRel
+        rw [h1, h2, h3]
+        exact Or.inr ⟨hass, m, hm, hlg, hv⟩
+
+theorem reachable_cinv_general {a : Ann} {ver gen : Nat} {cells0 : List Nat} (hc : cells0.length = N)
+    (hg : gen < 65536) (ha : a.adequate = true)
+    (hnw : ∀ t, Reachable a (Sys.init ver gen cells0) t → NoWrapAt a t)
+    {s : Sys} (hr : Reachable a (Sys.init ver gen cells0) s) : CInv cells0 s := by
+  induction hr with
+  | refl => exact CInv.init ver gen cells0
+  | step hr' hst ih => exact ih.step hc ha (reachable_inv hc hg hr') (hnw _ hr') hst
+
+theorem noWrapAt_of_few (a : Ann) {s : Sys} (h : completedUpdates s.log < 32767) : NoWrapAt a s :=
+  fun _ _ _ _ _ _ => Nat.lt_of_le_of_lt (eGB_le_completed _ _ _) h
+
+theorem reachable_cinv_few {a : Ann} {ver gen : Nat} {cells0 : List Nat} (hc : cells0.length = N)
+    (hg : gen < 65536) (ha : a.adequate = true)
+    {s : Sys} (hr : Reachable a (Sys.init ver gen cells0) s) (hfew : completedUpdates s.log < 32767) :
+    CInv cells0 s := by
+  induction hr with
+  | refl => exact CInv.init ver gen cells0
+  | step hr' hst ih =>
+    obtain ⟨l, hl⟩ := step_log_append hst
+    rename_i s' t'
+    have hle := completedUpdates_append s'.log l
+    rw [← hl] at hle
+    have hfew' := Nat.lt_of_le_of_lt hle hfew
+    exact (ih hfew').step hc ha (reachable_inv hc hg hr') (noWrapAt_of_few a hfew') hst
+
+/-- a reader access never moves the accepted index backwards -/
+theorem rStep_acceptedIdx_mono {a : Ann} {log : Log} {r : Reader} (hR : RInv log r) (pc pm : Nat) :
+    r.acceptedIdx ≤ (rStep a log r pc pm).1.acceptedIdx := by
+  rcases rStep_cache_cases a log r pc pm with ⟨_, _, h3, _⟩ | ⟨g1, retries, got, hpc, _, _, _, h3, _⟩
+  · rw [h3]; exact Nat.le_refl _
+  · rw [h3]
+    have hP := hR.pc
+    rw [hpc] at hP
+    exact hP.1.2.2.2.2.1
 
 end ClockBound.SL
